@@ -258,11 +258,21 @@ def main():
     confirmed = []
     nonrepro = []
     if violations:
-        for h, unknown in violations:
+        # Native replay goes through kani-driver (a second, slower verification run that prints the concrete values, then
+        # `cargo kani playback` in dev and release): 15-40 minutes per harness.  The cheapest VERIF_MAX_REPLAYS (default 2)
+        # counterexamples are replayed; the others are reported with the solver's counterexample only (record says so).
+        max_replays = int(os.environ.get("VERIF_MAX_REPLAYS", "2"))
+        order = sorted(violations, key=lambda hv: results[hv[0].name].get("wall_s", 0))
+        replayed = 0
+        for h, unknown in order:
             if a.no_replay:
                 rp = None
                 ok = None
+            elif replayed >= max_replays:
+                rp = replay_mod.solver_only_record(prop, h, unknown, results[h.name], plan)
+                ok = True
             else:
+                replayed += 1
                 rp, ok, detail = replay_mod.confirm(prop, h, unknown, results[h.name], tier, plan)
             if ok or a.no_replay:
                 confirmed.append((h, unknown, rp))
@@ -346,8 +356,11 @@ def main():
         "wall_s": round(wall, 2),
         "violations": len(confirmed),
     }
-    os.makedirs(os.path.join(VERIF, "evidence"), exist_ok=True)
-    evp = os.path.join(VERIF, "evidence", prop + ".json")
+    # a filtered run (--only) is a development / seed-testing aid: its coverage record must not replace the evidence of the
+    # registered commands
+    evdir = os.path.join(VERIF, "evidence") if not a.only else os.path.join(ws.CACHE, "evidence_partial")
+    os.makedirs(evdir, exist_ok=True)
+    evp = os.path.join(evdir, prop + ".json")
     with open(evp + ".tmp", "w") as f:
         json.dump(ev, f, indent=1)
     os.replace(evp + ".tmp", evp)
